@@ -126,6 +126,13 @@ func c16Family(j *Job) []xferCase {
 }
 
 func c16EndToEnd(j *Job) {
+	// skip reports across a reset and re-open while the TSN wraps (scenario of C07): the reset's
+	// last TSN lies just below 2^32, the new incarnation's chunks just above zero
+	for _, tsn := range []uint32{0xFFFFFFFB, 0xFFFFFFFC, 0xFFFFFFFD} {
+		for _, mode := range stdModes()[:2] {
+			j.Explore(fmt.Sprintf("FR/%s/tsn%x", mode.Name, tsn), fwdAcrossResetScenario(withBase(mode.A, 228, tsn, 4000), withBase(mode.B, 228, 50, 4000)), Budget{}, nil)
+		}
+	}
 	for _, t0 := range []uint32{1000, 0x7FFFFFF0, 0xFFFFFF00, 0xFFFFFFF8, 0xFFFFFFFF} {
 		j.Explore(fmt.Sprintf("throttle/tsn%#x", t0), throttleScenario(t0), Budget{}, nil)
 	}
